@@ -149,6 +149,9 @@ def gen_cases(ctx):
     out = []
     for k in range(70 if q else 700):
         out.append({"k": "s2d", "stream": "exact" if k % 2 == 0 else "general", "seed": rng.getrandbits(48)})
+    # fixed seeds with the field stored in a narrow integer type (applies when the drawn field is not the bilinear one)
+    for k in range(12 if q else 60):
+        out.append({"k": "s2d", "stream": "exact", "seed": 7000 + k, "ftype": ["u1", "i2", "i2", "u1"][k % 4]})
     kinds = ["affine", "polar", "rotated", "polar", "rotated", "warped"]
     for k in range(48 if q else 480):
         out.append({"k": "binv", "grid": kinds[k % len(kinds)], "seed": rng.getrandbits(48)})
@@ -258,11 +261,15 @@ def eval_s2d(desc, ctx):
         rng.shuffle(cands)
         pts += cands[:2] if cands else [(rng.randrange(nc - 1) + e1, rng.randrange(nr - 1) + 1 - e1)]
     ftype = "f8"
-    if exact and bil is None and rng.random() < 0.5:
+    forced = desc.get("ftype")
+    if forced and bil is None:
+        F = np.round(F)
+    if exact and bil is None and (forced or rng.random() < 0.5):
         F = np.round(F)
         # whole-number fields as they come out of files: narrow integer types (differences of neighbouring nodes do not
         # fit the type: uint8 around 128, int16 near its limits) and float32
         ftype = rng.choice(["u1", "i2", "i4", "f4", "i8"])
+        ftype = forced or ftype
         if ftype == "u1":
             F = (F - F.min() + (255 - (F.max() - F.min())) // 2).astype("u1") if F.max() - F.min() <= 255 else F
         elif ftype == "i2":
